@@ -1,5 +1,6 @@
 import Cell2v.Lemmas.Service
 import Cell2v.Lemmas.ServiceLive
+import Cell2v.Lemmas.ServiceRestart
 /-!
 C01 — a service request completes exactly once: reply, remote error, or timeout.
 
@@ -532,6 +533,131 @@ theorem restart_id_reuse_witness :
     (run (init 2147483632 0) [.issue true true true, .response 1 (.ok (some 5))]).log.head? =
       some (.cb 0 1 (.reply (some 5)) 0) ∧
     (run (init 2147483632 0) [.issue true true true, .response 1 (.ok (some 5))]).collided = false := by decide
+
+/-! ### the restart itself, as a model (`Model/ServiceLife.lean`): the live incarnation and the orphaned ones
+
+`Life` = the `Service` object that receives the actor's messages now + the objects earlier restarts left
+behind (their 1 s expiry timers still run on the shared run service).  `LOp.crash` is a panic on the service
+goroutine: recovered by the timer manager inside an expiry scan, a supervisor restart anywhere else.
+Tied to the Go code on every run by the harness op `restart` (a real panicking callback under
+`handleResponse`, the real supervisor, the real producer). -/
+
+/-- **every incarnation is one `Service` object's history**: whatever the live and the orphaned objects do,
+however often the actor crashes, each incarnation — live or orphaned — is in a state that a history of the
+one-object model reaches from `init M 0`.  Hence every theorem above about `run (init M 0) ops` holds for
+each incarnation separately (next theorem: at most once). -/
+theorem every_incarnation_is_a_run (M : Nat) (lops : List LOp) :
+    (∃ M' ops, (lrun (Life.start M) lops).cur = run (init M' 0) ops) ∧
+    ∀ s, s ∈ (lrun (Life.start M) lops).old → ∃ M' ops, s = run (init M' 0) ops :=
+  let h := lrun_LReach lops _ (start_LReach M)
+  ⟨h.cur, h.old⟩
+
+/-- **at most once across restarts**: in every incarnation of the actor, at every moment, no instance's
+callback has been invoked twice (per incarnation id guard, as before). -/
+theorem cb_at_most_once_across_restarts (M : Nat) (lops : List LOp) (s : State)
+    (hs : s = (lrun (Life.start M) lops).cur ∨ s ∈ (lrun (Life.start M) lops).old)
+    (hg : s.collided = false) (i : Nat) : cbCount s.log i ≤ 1 := by
+  have h := lrun_LReach lops _ (start_LReach M)
+  have hr : OneLife s := by
+    rcases hs with rfl | hs
+    · exact h.cur
+    · exact h.old s hs
+  obtain ⟨M', ops, rfl⟩ := hr
+  exact cb_at_most_once M' 0 ops hg i
+
+/-- **what a restart does** (a panic outside an expiry scan): the live object is a new one — empty table,
+allocator at 0, no timer, the shared clock — and the old object joins the orphans exactly as it was (table,
+armed timer, log, allocator), with nothing running on it any more: it is at rest, so `tick_completes_due` /
+`exactly_once_despite_panics` apply to it and its pending requests are still timed out by its own scans. -/
+theorem restart_orphans_the_table (l : Life) (hb : ∀ i rest, l.cur.base ≠ .inTick i rest) :
+    (lstep l .crash).cur = fresh l.cur.M l.cur.now ∧
+    (lstep l .crash).cur.pending = [] ∧ (lstep l .crash).cur.nextId = 0 ∧ (lstep l .crash).cur.armed = false ∧
+    (lstep l .crash).cur.now = l.cur.now ∧
+    (lstep l .crash).old = unwound l.cur :: l.old ∧
+    free (unwound l.cur) = true ∧ (unwound l.cur).pending = l.cur.pending ∧
+    (unwound l.cur).armed = l.cur.armed ∧ (unwound l.cur).log = l.cur.log := by
+  have h := crash_restart hb
+  rw [h]
+  exact ⟨rfl, rfl, rfl, rfl, by simp [fresh, step, init], rfl, rfl, rfl, rfl, rfl⟩
+
+/-- … whereas inside an expiry scan the panic is recovered (`timer.Mgr.do`): same object, no orphan -/
+theorem scan_panic_does_not_restart (l : Life) (i : Nat) (rest : List Nat) (hb : l.cur.base = .inTick i rest) :
+    lstep l .crash = { l with cur := step l.cur .panic } := by
+  simp [lstep, crash, hb, step]
+
+/-- **messages reach the live object only**: a `ServiceResponse` is handled by the live incarnation and
+leaves every orphan untouched, whichever request it answers … -/
+theorem response_reaches_live_only (l : Life) (id : Nat) (p : Payload) (k : Nat) :
+    (lstep l (.live (.response id p))).old = l.old ∧
+    (lstep l (.live (.response id p))).cur = step l.cur (.response id p) ∧
+    lstep l (.orphan k (.response id p)) = l := ⟨rfl, rfl, rfl⟩
+
+/-- … so an orphaned request is never completed by its reply: whatever an orphan still does (its timer,
+its callbacks), a completion it adds is the timeout (or the synchronous error of a call its own callbacks
+make) — never a reply, a remote error or a decode error. -/
+theorem orphan_completes_only_by_timeout (s : State) (op : Op) (hop : orphanOp op = true)
+    (i id : Nat) (o : Outcome) (t : Nat)
+    (hin : Ev.cb i id o t ∈ (step s op).log) (hnew : Ev.cb i id o t ∉ s.log) :
+    o = .timeout ∨ o = .serErr ∨ o = .noService := by
+  rcases step_new_cb hin hnew with (⟨e, _⟩ | ⟨_, e, _⟩) | ⟨e, _⟩ | ⟨p, w, e, _⟩ | ⟨e, _⟩
+  · exact Or.inl e
+  · exact Or.inl e
+  · exact Or.inr (Or.inl e)
+  · subst e; simp [orphanOp] at hop
+  · exact Or.inr (Or.inr e)
+
+/-- **a reply crosses the restart** (the hazard, for EVERY history — the `decide`d witness below is one
+instance): let the old object, after any history `ops`, have a request registered under id 1 and crash
+outside a scan.  The first request the new object issues gets id 1 again (whatever `M`), and the reply
+addressed to the OLD request — any payload — completes the NEW object's instance 0 with its decoded content,
+while the old request stays registered in the orphan, uncompleted by it (left to the orphan's timer).
+"The response that answers that very request" fails without any id wrap: the id guard is per object. -/
+theorem reply_crosses_restart (M : Nat) (ops : List Op) (olds : List State) (w : Wait) (p : Payload)
+    (hb : ∀ i rest, (run (init M 0) ops).base ≠ .inTick i rest)
+    (hm : (1, w) ∈ (run (init M 0) ops).pending) :
+    let l := lrun ⟨run (init M 0) ops, olds⟩ [.crash, .live (.issue true true true), .live (.response 1 p)]
+    l.cur.log.head? = some (.cb 0 1 (decode p) (run (init M 0) ops).now) ∧
+    cbCount l.cur.log 0 = 1 ∧
+    l.old.head? = some (unwound (run (init M 0) ops)) ∧
+    (1, w) ∈ (unwound (run (init M 0) ops)).pending ∧
+    (unwound (run (init M 0) ops)).log = (run (init M 0) ops).log := by
+  intro l
+  have e : lstep ⟨run (init M 0) ops, olds⟩ .crash =
+      ⟨fresh (run (init M 0) ops).M (run (init M 0) ops).now, unwound (run (init M 0) ops) :: olds⟩ :=
+    crash_restart (l := ⟨run (init M 0) ops, olds⟩) hb
+  have hc : l = ⟨step (step (fresh (run (init M 0) ops).M (run (init M 0) ops).now) (.issue true true true)) (.response 1 p),
+      unwound (run (init M 0) ops) :: olds⟩ := by
+    simp only [l, lrun, List.foldl]
+    rw [e]; rfl
+  have hid : ∀ m : Nat, allocId m 0 = 1 := by intro m; unfold allocId; split <;> rfl
+  rw [hc]
+  refine ⟨?_, ?_, rfl, hm, rfl⟩
+  · simp [fresh, step, init, issue, hid, response, free, find, finish, del, hasKey]
+  · simp [fresh, step, init, issue, hid, response, free, find, finish, del, hasKey, cbCount, isCbOf]
+
+/-- the Go witness (`TestRestartWitness`, and the harness op `restart a=1 b=1`) as a history of the model:
+request 0 held by the peer, request 1 answered and its callback panics -> restart; the new object's first
+request (its instance 0, id 1) is completed by the reply to the OLD request 0 (id 1); the old request 0 is
+timed out by the orphan's scan at +31 s; both tables end empty. -/
+example :
+    let l := lrun (Life.start 2147483632)
+      [.live (.issue true true true), .live (.issue true true true), .live (.response 2 (.ok (some 1))), .crash,
+       .live (.issue true true true), .live (.response 1 (.ok (some 5))), .live .ret,
+       .live (.advance 31000), .orphan 0 (.tick []), .orphan 0 .ret]
+    l.cur.log.reverse = [.issued 0 1 0, .sent 0 1, .armed, .done 0 1, .cb 0 1 (.reply (some 5)) 0] ∧
+    (l.old.map (fun s => s.log.reverse)) =
+      [[.issued 0 1 0, .sent 0 1, .armed, .issued 1 2 0, .sent 1 2, .done 1 2, .cb 1 2 (.reply (some 1)) 0,
+        .done 0 1, .cb 0 1 .timeout 31000]] ∧
+    l.cur.pending = [] ∧ (l.old.map (·.pending)) = [[]] := by decide
+
+/-- hypotheses of `reply_crosses_restart` are satisfiable (the crash happens inside a reply callback) -/
+example : (∀ i rest, (run (init 100 0) [.issue true true true, .issue true true true, .response 2 .bad]).base ≠ .inTick i rest) ∧
+    (run (init 100 0) [.issue true true true, .issue true true true, .response 2 .bad]).base = .inResp 1 ∧
+    keys (run (init 100 0) [.issue true true true, .issue true true true, .response 2 .bad]).pending = [1] := by
+  refine ⟨?_, by decide, by decide⟩
+  intro i rest h
+  have : (run (init 100 0) [.issue true true true, .issue true true true, .response 2 .bad]).base = .inResp 1 := by decide
+  rw [this] at h; cases h
 
 /-! ### non-vacuity: a concrete history with three outstanding requests, a reply,
 a duplicate of it, an error reply, an expiry, a late reply; the hypotheses of the
